@@ -14,7 +14,12 @@
    start on a nested storage location that does not exist -- the traced phase begins BEFORE the Application is
    constructed and the projection is rebased on the existing ancestor, so that the entries of the ancestors, of the
    storage folder and of collection-root fall under the durability rules (monitor only, cross-checked with durableb)
-6. EXDEV injected into the rename of item moves: whatever path the server takes then, a success answer needs a durable trace."""
+6. EXDEV injected into the rename of item moves: whatever path the server takes then, a success answer needs a durable trace.
+7. histories: many requests served by ONE server process (one Storage object) in which the path of a collection is rebound to
+   another directory (whole-collection PUT = exchange, DELETE + MKCALENDAR / whole-collection PUT, rmdir + MKCALENDAR, the same
+   for the parent) between item-level changes; every acknowledged modifying request of the history goes through the monitor.
+   An fsync is attributed to the directory the descriptor REACHES when the call is made (Props/C12.v C12_dir_fsync_by_identity:
+   fsyncs of other directories discharge nothing), not to the path it was opened with."""
 import os
 
 from vlib import core
@@ -140,6 +145,48 @@ def _run(ctx, base):
                                steps=[X.fmt_step(s_) for s_ in sr["steps"]], note="replay: ./check C12 --replay <this file>"),
                           signature="C12:startup:%s" % o)
     ctx.obligation("harness:startup-runs", not bad_start, "; ".join(bad_start[:3]))
+    # ---- histories on one long-lived server process: the path of a collection is rebound to another directory between
+    #      item-level changes (state kept by the Storage object across requests -- descriptors, paths, flags -- must not
+    #      make a later request skip or misdirect its syncs)
+    hists = B.histories(ctx.rng, ctx.quick)
+    ctx.log("histories on one server process: %d (%d requests)" % (len(hists), sum(len(h[2]) for h in hists)))
+    for lay in sorted(set(h[1] for h in hists)):
+        B.build_shape("warm", lay, base)       # before the pool: the workers copy it
+    with C.pool() as p:
+        hres = p.map(B.history_run, [(base, "warm", lay, name, reqs) for name, lay, reqs in hists], chunksize=1)
+    bad_hist, whole_traces, nh = [], [], 0
+    for (name, lay, reqs), hr in zip(hists, hres):
+        if hr.get("error"):
+            bad_hist.append("%s: %s" % (name, hr["error"][:300]))
+            continue
+        unexpected = [r_["request"] + " -> %s" % r_["status"] for r_ in hr["results"] if r_["status"] not in B.SUCCESS]
+        if unexpected or len(hr["results"]) != len(reqs):
+            bad_hist.append("%s: %s %s" % (name, unexpected[:3], (hr.get("errors") or "")))
+        whole_traces.append(((name, "history", tuple(lay)), hr["whole"]))
+        ctx.count("kind:History")
+        for i, r_ in enumerate(hr["results"]):
+            if r_["request"].split()[0] not in B.MODIFYING:
+                continue
+            nh += 1
+            ctx.case(("history", name, tuple(lay), i, r_["request"]), nontrivial=bool(r_["steps"]),
+                     sample=dict(history=name, index=i, request=r_["request"], status=r_["status"]))
+            ctx.traces_validated += 1
+            if r_["status"] in B.SUCCESS and r_["verdict"] is None:
+                real_traces.append(r_["steps"])
+                keys.append(("history:%s#%d" % (name, i), "warm", tuple(lay)))
+            if r_["verdict"]:
+                ctx.violation("C12: history %s on ONE server process (store 'warm', layout %s): request #%d %s, after [%s], answered %s but "
+                              "its system calls are not durable: %s%s" % (
+                                  name, lay, i, r_["request"], "; ".join(x["request"] for x in hr["results"][:i]), r_["status"],
+                                  r_["verdict"], ("; " + r_["stale"][0]) if r_["stale"] else ""),
+                              dict(history=name, layout=list(lay), shape="warm", requests=reqs, index=i, failing=r_["request"],
+                                   status=r_["status"], verdict=r_["verdict"], stale_descriptors=r_["stale"],
+                                   steps=[X.fmt_step(s_) for s_ in r_["steps"]],
+                                   note="replay: ./check C12 --replay <this file> re-runs the whole history on one server process under strace"),
+                              signature="C12:history:%s" % name)
+                break
+    ctx.extra["history_requests_checked_for_durability"] = nh
+    ctx.obligation("harness:history-runs", not bad_hist, "; ".join(bad_hist[:3]))
     # ---- EXDEV on the rename of an item move (collections on different file systems): whatever the server does then,
     #      a success answer needs a durable trace (unchanged code: the request fails, nothing moved).  The rename and a retry of it fail.
     xjobs, xmeta = [], []
@@ -275,6 +322,9 @@ def _run(ctx, base):
         for what, m in mutants(t, ctx.rng, 3 if ctx.quick else 12):
             mut.append(m)
             mut_info.append((key, what))
+    for key, t in whole_traces:          # whole histories (all requests of one process in one trace): agreement of the two monitors
+        mut.append(t)
+        mut_info.append((key, "whole history"))
     allt = real_traces + mut
     coq = C.coq_durable(ctx, allt)
     if coq is not None:
@@ -303,10 +353,25 @@ def replay(ctx, path):
     data = json.load(open(path))
     print(json.dumps(data, indent=1)[:3000])
     r = data.get("replay", {})
-    if not r.get("request"):
+    if not r.get("request") and not r.get("history"):
         return 0
     base = C.make_base()
     try:
+        if r.get("history"):
+            hr = B.history_run((base, r.get("shape", "warm"), tuple(r["layout"]), r["history"], r["requests"]))
+            if hr.get("error"):
+                print("history run failed:", hr["error"])
+                return 0
+            bad = 0
+            for i, r_ in enumerate(hr["results"]):
+                print("#%d %s -> %s  %s" % (i, r_["request"], r_["status"], "durable" if not r_["verdict"] else "NOT DURABLE: " + r_["verdict"]))
+                for x in r_["stale"]:
+                    print("      ", x)
+                if r_["verdict"]:
+                    bad += 1
+                    for s_ in r_["steps"]:
+                        print("      ", X.fmt_step(s_))
+            return 1 if bad else 0
         if r.get("startup"):
             sr = B.startup_run((base, r["startup"]))
             print("status", sr.get("status"), "verdict:", sr.get("verdict"), sr.get("error") or "")
